@@ -753,3 +753,59 @@ Example prefix_example :
   cut 6 [1; 2; 3; 9; 12] = [1; 2; 3] /\
   map (cut 6) [[1; 5; 9; 13]; [2; 4; 6; 8]] = map (cut 6) [[1; 5; 7]; [2; 4; 6; 100; 200]].
 Proof. vm_compute. split; reflexivity. Qed.
+
+(* ------------------------------------------------------------------ naive / aware *)
+(* a set whose instants are all of one kind (as far as the comparisons made by sort, heapq and
+   the exclusion cursor can tell: tag_error = false) behaves like the untagged set; the TypeError
+   side (tag_error = true) is only compared with the implementation, not derived *)
+Theorem rset_iter_tagged_ok : forall H is_heap, heap_contract H is_heap ->
+  forall rr rd exr exd, tag_error rr rd exr exd = false ->
+  Forall nondec (map snd rr) -> Forall nondec (map snd exr) ->
+  rset_iter_tagged H rr rd exr exd =
+  TOk (spec_set (map snd rr) (map snd rd) (map snd exr) (map snd exd))
+      (Some (Z.of_nat (length (spec_set (map snd rr) (map snd rd) (map snd exr) (map snd exd))))).
+Proof.
+  intros H is_heap HC rr rd exr exd Ht Hrr Hexr. unfold rset_iter_tagged. rewrite Ht.
+  rewrite (rset_iter_correct H is_heap HC) by assumption. reflexivity.
+Qed.
+
+Example tagged_example :
+  tag_error [(1, [0; 5])] [(1, 3)] [] [(1, 5)] = false /\
+  tag_error [(1, [0; 5])] [(1, 3)] [] [(0, 5)] = true /\
+  tag_error [(1, [0; 5]); (0, [])] [] [(0, [])] [] = false.
+Proof. vm_compute. repeat split; reflexivity. Qed.
+
+Lemma filter_none_Z : forall (p : Z -> bool) l, (forall y, In y l -> p y = false) -> filter p l = [].
+Proof.
+  intros p l. induction l as [|x t IH]; intro Hf; simpl; [reflexivity|].
+  rewrite (Hf x (or_introl eq_refl)). apply IH. intros y Hy. apply Hf. right. assumption.
+Qed.
+
+(* the literal form: the first k+1 outputs are what the set cut at the (k+1)-th output yields *)
+Lemma cut_firstn : forall out k b, strict_sorted out -> nth_error out k = Some b ->
+  cut b out = firstn (S k) out.
+Proof.
+  induction out as [|a t IH]; intros k b Hs Hn; [destruct k; discriminate|].
+  destruct k as [|k]; simpl in Hn.
+  - injection Hn as ->. unfold cut. simpl. rewrite Z.leb_refl. f_equal.
+    apply filter_none_Z. intros y Hy. pose proof (strict_sorted_head_lt _ _ _ Hs Hy).
+    apply Z.leb_gt. lia.
+  - assert (Hb : In b t) by (eapply nth_error_In; eauto).
+    pose proof (strict_sorted_head_lt _ _ _ Hs Hb) as Hlt.
+    unfold cut. simpl filter. destruct (Z.leb_spec a b); [|lia].
+    change (firstn (S (S k)) (a :: t)) with (a :: firstn (S k) t). f_equal.
+    apply IH; [eapply strict_sorted_tail; eauto|assumption].
+Qed.
+
+Theorem rset_first_n : forall H is_heap, heap_contract H is_heap ->
+  forall rr rd exr exd out p k b, Forall nondec rr -> Forall nondec exr ->
+  rset_iter H rr rd exr exd = Some (out, p) -> nth_error out k = Some b ->
+  exists p', rset_iter H (map (cut b) rr) (cut b rd) (map (cut b) exr) (cut b exd) = Some (firstn (S k) out, p').
+Proof.
+  intros H is_heap HC rr rd exr exd out p k b Hrr Hexr Hr Hn.
+  destruct (rset_prefix H is_heap HC b rr rd exr exd Hrr Hexr) as [out1 [p1 [out2 [p2 [E1 [E2 E3]]]]]].
+  rewrite Hr in E1. injection E1 as <- <-.
+  exists p2. rewrite E2. f_equal. f_equal. rewrite <- E3. apply cut_firstn; [|assumption].
+  destruct (rset_strict_increasing H is_heap HC rr rd exr exd Hrr Hexr) as [o [Ho [Hs _]]].
+  rewrite Hr in Ho. injection Ho as <- _. exact Hs.
+Qed.
